@@ -1080,6 +1080,16 @@ func (it *Interp) binop(f *frame, x *ssa.BinOp) {
 			r = Shr(a, k)
 		}
 	case token.QUO, token.REM:
+		if !a.Signed && b.IsConst() && b.Lo.Sign() > 0 && b.Lo.BitLen()-1 == int(b.Lo.TrailingZeroBits()) && !a.IsConst() {
+			// unsigned division by a power of two is a shift, the remainder a mask
+			kk := b.Lo.BitLen() - 1
+			if x.Op == token.QUO {
+				r = Shr(a, kk)
+			} else {
+				r = And(a, Const(new(big.Int).Sub(pow2(kk), big1), a.W, false))
+			}
+			break
+		}
 		if a.IsConst() && b.IsConst() && b.Lo.Sign() != 0 {
 			q, m := new(big.Int).QuoRem(a.Lo, b.Lo, new(big.Int))
 			if x.Op == token.QUO {
@@ -1089,6 +1099,8 @@ func (it *Interp) binop(f *frame, x *ssa.BinOp) {
 			}
 		} else if x.Op == token.QUO && b.IsConst() && b.Lo.Sign() > 0 && a.Lo.Sign() >= 0 {
 			r = Range(new(big.Int).Quo(a.Lo, b.Lo), new(big.Int).Quo(a.Hi, b.Lo), a.W, a.Signed)
+		} else if x.Op == token.REM && b.IsConst() && b.Lo.Sign() > 0 && a.Lo.Sign() >= 0 {
+			r = Range(new(big.Int), new(big.Int).Sub(b.Lo, big1), a.W, a.Signed)
 		} else {
 			r = Top(a.W, a.Signed)
 		}
